@@ -301,6 +301,13 @@ class Interp(object):
                 raise Undecided('destructuring mismatch', target)
             for t, x in zip(target.elts, v):
                 self.assign(t, x, env)
+        elif isinstance(target, ast.Subscript) and isinstance(target.slice, ast.Slice):
+            base = self.expr(target.value, env)
+            lo = self.expr(target.slice.lower, env) if target.slice.lower is not None else None
+            hi = self.expr(target.slice.upper, env) if target.slice.upper is not None else None
+            if not isinstance(base, list) or not isinstance(v, list) or target.slice.step is not None or not all(x is None or isinstance(x, int) for x in (lo, hi)):
+                raise Undecided('slice store outside whitelist', target)
+            base[lo:hi] = v
         elif isinstance(target, ast.Subscript):
             base = self.expr(target.value, env)
             idx = self.expr(target.slice, env)
